@@ -20,14 +20,20 @@ RULE = ("Two generated families. formula: a generated ODE (vector/matrix states,
         "(order 1..4), and a generated nonlinear vector-valued expression e(x,t,p,v, chain top member, spline); ocp.der(e) evaluated numerically at 4 random points must equal the Richardson-extrapolated "
         "central difference of the reference evaluation of e along (x + h f(x,u,p,t), t + h, s + h ds) and, on a subset, d/dt of e along a DOP853 trajectory. chain: a control of order k under "
         "SingleShooting rk; every member reached by repeated der() is sampled on a refined grid and must be a polynomial of degree k-j per control interval whose derivative is the next member, continuous "
-        "across intervals, the last member being the piecewise-constant decision; der() of the order-0 member / of a degree-0 spline / beyond a spline's degree must raise. "
+        "across intervals, the last member being the piecewise-constant decision; spline_der: every existing derivative of a B-spline variable/parameter, sampled after transcription under SplineMethod "
+        "with T in {0.5, 1, 2.5}, equals the derivative of the scipy spline through the same coefficients; der() of the order-0 member / of a degree-0 spline / beyond a spline's degree must raise. "
         "Non-trivial = explicit t and state dependence together, a chain, or a spline; distinct = SHA-1 of case JSON.")
 ASSUMPTIONS = ["finite differences with h=1e-3 / 5e-4 and Richardson extrapolation resolve derivatives of the bounded generated expressions to 1e-7"]
 
 
 @st.composite
 def strategy_(draw):
-    kind = gen.weighted(draw, [("formula", 3), ("chain", 1)])
+    kind = gen.weighted(draw, [("formula", 6), ("chain", 2), ("spline_der", 1)])
+    if kind == "spline_der":
+        # every derivative of a B-spline variable/parameter that exists, in physical time (T != 1 included), after transcription
+        return {"kind": "spline_signal", "c16": True, "N": draw(st.integers(1, 5)), "grid": draw(gen.grid(classes=("uniform", "geometric", "function"), localize=False)),
+                "order_v": draw(st.integers(1, 4)), "order_p": draw(st.integers(1, 4)), "rows": draw(st.sampled_from([1, 1, 2])), "T": draw(st.sampled_from([1.0, 2.5, 0.5])),
+                "t0": draw(st.sampled_from([0.0, 1.0])), "refine": draw(st.integers(1, 4)), "rng": draw(st.integers(0, 2**31 - 1))}
     if kind == "chain":
         k = draw(st.integers(1, 3))
         N = draw(st.integers(1, 3))
@@ -66,7 +72,7 @@ def strategy(tier):
 
 
 def nontrivial(case):
-    if case["kind"] == "chain":
+    if case["kind"] in ("chain", "spline_signal"):
         return True
     has_t = any(E.has_op(e, "t") for e in case["expr"])
     has_x = any(E.syms_in(e) & {d["name"] for d in case["spec"]["states"]} for e in case["expr"])
@@ -74,6 +80,8 @@ def nontrivial(case):
 
 
 def classify(case):
+    if case["kind"] == "spline_signal":
+        return ["spline derivatives after transcription", "order_v:%d" % case["order_v"], "order_p:%d" % case["order_p"], "T:%s" % case["T"]]
     if case["kind"] == "chain":
         return ["chain", "order:%d" % case["order"], "grid:" + case["grid"]["cls"]]
     labs = ["formula", "shape:%dx%d" % tuple(case["shape"])]
@@ -87,7 +95,7 @@ def classify(case):
 
 
 def abbreviate(case):
-    if case["kind"] == "chain":
+    if case["kind"] in ("chain", "spline_signal"):
         return case
     return {"kind": "formula", "der": case["spec"]["der"][:1], "expr": case["expr"][:2], "shape": case["shape"], "horder": case["horder"], "sorder": case["sorder"], "rng": case["rng"]}
 
@@ -291,6 +299,10 @@ def check_chain(case, ctx):
 
 
 def check(case, ctx):
+    if case["kind"] == "spline_signal":
+        # der() of a B-spline signal, k times, is the k-th time derivative of the spline (scipy reference); shared with C17
+        from props import c17
+        return c17.check_spline_signal(case, ctx)
     return check_formula(case, ctx) if case["kind"] == "formula" else check_chain(case, ctx)
 
 
